@@ -12,7 +12,7 @@
    Version / revision arguments range over ALL strings, data-rate indices over all of Z. *)
 From Coq Require Import List ZArith Bool String.
 From LW Require Import Base.Outcome Band.Types Band.Lookup Band.Regional Band.Rx1Spec Band.TablesSpec
-     Band.Rx1Checks Band.Rx1BaseProofs Band.TablesChecks Band.TablesProofs Band.AddChannelProofs.
+     Band.Rx1Checks Band.Rx1BaseProofs Band.TablesChecks Band.TablesProofs Band.AddChannelProofs Band.AliasProofs.
 From LWGen Require Import BandGen KnownGen.
 Import ListNotations.
 Open Scope Z_scope.
@@ -204,6 +204,22 @@ Theorem C13_rx2_defaults : forall c, In c band_configs -> forall reg, region_of 
   /\ dr_defined_down (c_tab c) (d_rx2_dr (get_defaults c)) = true.
 Proof. exact rx2_defaults. Qed.
 Print Assumptions C13_rx2_defaults.
+
+(* the deprecated, still exported band names (AS_923, AU_915_928, CN_470_510, ... -
+   [deprecated_names]): what band.GetConfig returns for (deprecated name, repeater, dwell) is, in
+   every table and field but the name it was asked for, the configuration of the common name with
+   the same arguments - so every statement of this file holds for those objects too - and every
+   deprecated name x repeater x dwell time is among the dumped objects *)
+Theorem C13_deprecated_names : forall ac, In ac band_alias_configs ->
+  exists common c, In (c_name ac, common) deprecated_names /\ In c band_configs /\ c_name c = common
+                   /\ c_rep c = c_rep ac /\ c_dwell c = c_dwell ac /\ ac = with_name c (c_name ac).
+Proof. exact deprecated_name_same_band. Qed.
+Print Assumptions C13_deprecated_names.
+
+Theorem C13_deprecated_names_covered : forall name common rep dw, In (name, common) deprecated_names ->
+  exists ac, In ac band_alias_configs /\ c_name ac = name /\ c_rep ac = rep /\ c_dwell ac = dw.
+Proof. exact deprecated_names_covered. Qed.
+Print Assumptions C13_deprecated_names_covered.
 
 (* non-vacuity *)
 Example C13_example :
